@@ -489,6 +489,29 @@ func genCoordCase(r *Rng, big bool) *CCase {
 		c.Probes[mbA].Rt1.Proc = 12 + r.PickI(0, 3)
 		c.Probes[mbB].Rt1.Proc = r.PickI(0, 1, 3)
 	}
+	// several relief moves onto one destination within one cycle, total series well above kept series:
+	// the destination's running process load decides whether the second move still fits
+	if !moveBack && n >= 2 && r.Chance(6) {
+		c.Opt.MaxHead, c.Opt.MaxProc, c.Opt.DisAllev = 0, 40, false
+		a := r.Intn(n)
+		b := (a + 1 + r.Intn(n-1)) % n
+		c.Active, c.Explore = []uint64{}, []CSt{}
+		for i := range c.Probes {
+			c.Probes[i].Status = []CSt{}
+		}
+		for h := uint64(1); h <= 5; h++ {
+			c.Active = append(c.Active, h)
+			c.Probes[a].Status = append(c.Probes[a].Status, CSt{Hash: h, Health: 1, Series: 2, Total: 12, Times: uint64(3 + r.Intn(3))})
+		}
+		for _, i := range []int{a, b} {
+			c.Probes[i].Ready, c.Probes[i].StatusOk, c.Probes[i].Rt1.Ok, c.Probes[i].Rt1.Eq, c.Probes[i].PostOk = true, true, true, true, true
+		}
+		for i := range c.Probes {
+			c.Probes[i].Rt1 = CRt{Ok: c.Probes[i].Rt1.Ok, Eq: c.Probes[i].Rt1.Eq, Head: 0, Proc: 39, Idle: 0}
+		}
+		c.Probes[a].Rt1.Head, c.Probes[a].Rt1.Proc = 10, 60
+		c.Probes[b].Rt1.Head, c.Probes[b].Rt1.Proc, c.Probes[b].Rt1.Idle = 0, r.PickI(18, 20, 22), 1
+	}
 	return c
 }
 
